@@ -83,9 +83,12 @@ func sequenceCheck(res *ev.Result) (calls int64) {
 	}
 	for _, kind := range []string{"tcp", "rtu-net", "serial", "serial-flusher"} {
 		rtu := kind != "tcp"
-		for _, first := range []string{"stall-until-timeout", "stall-twice", "cancelled-context", "eof-before-reply"} {
+		for _, first := range []string{"stall-until-timeout", "stall-twice", "cancelled-context", "eof-before-reply", "not-connected", "not-connected-twice", "nil-request"} {
 			if first == "eof-before-reply" && rtu && kind != "rtu-net" {
 				continue
+			}
+			if (first == "not-connected" || first == "not-connected-twice") && kind != "tcp" && kind != "rtu-net" {
+				continue // a serial client is "connected" by construction
 			}
 			kind, first := kind, first
 			type outcome struct {
@@ -99,6 +102,7 @@ func sequenceCheck(res *ev.Result) (calls int64) {
 				conn := &seqConn{rtu: rtu, serial: kind == "serial" || kind == "serial-flusher", dev: spec.NewDevice(spec.ImageHash, spec.BitImage)}
 				vtime.ResetClock()
 				var cl doer
+				var netClient *modbus.Client
 				switch kind {
 				case "tcp", "rtu-net":
 					conf := modbus.ClientConfig{ReadTimeout: 5 * time.Millisecond, DialContextFunc: func(ctx context.Context, a string) (net.Conn, error) { return conn, nil }}
@@ -108,7 +112,10 @@ func sequenceCheck(res *ev.Result) (calls int64) {
 					} else {
 						c = modbus.NewTCPClientWithConfig(conf)
 					}
-					c.Connect(context.Background(), "x")
+					if first != "not-connected" && first != "not-connected-twice" {
+						c.Connect(context.Background(), "x")
+					}
+					netClient = c
 					cl = c
 				case "serial":
 					cl = modbus.NewSerialClient(struct{ io.ReadWriteCloser }{conn}, modbus.WithSerialReadTimeout(5*time.Millisecond))
@@ -129,7 +136,7 @@ func sequenceCheck(res *ev.Result) (calls int64) {
 				}
 				var outs []outcome
 				failing := 1
-				if first == "stall-twice" {
+				if first == "stall-twice" || first == "not-connected-twice" {
 					failing = 2
 				}
 				for n := 0; n < failing; n++ {
@@ -143,17 +150,23 @@ func sequenceCheck(res *ev.Result) (calls int64) {
 						conn.mute = true
 					case "eof-before-reply":
 						conn.eofNow = true
+					case "not-connected", "not-connected-twice":
+					case "nil-request":
+						q = nil
 					default:
 						conn.mute = true
 					}
-					resp, err := cl.Do(ctx, q)
+					resp, err := lib.SafeDo(cl.Do, ctx, q)
 					outs = append(outs, outcome{step: "failing", resp: resp, err: err})
 				}
 				conn.mute, conn.eofNow = false, false
 				conn.chunks = nil
+				if first == "not-connected" || first == "not-connected-twice" {
+					netClient.Connect(context.Background(), "x") // now connect: the refused calls must have left nothing behind
+				}
 				for n := 0; n < 2; n++ {
 					q, want := mk(10 + n)
-					resp, err := cl.Do(context.Background(), q)
+					resp, err := lib.SafeDo(cl.Do, context.Background(), q)
 					outs = append(outs, outcome{step: "later", resp: resp, err: err, want: want})
 				}
 				done <- outs
@@ -166,6 +179,10 @@ func sequenceCheck(res *ev.Result) (calls int64) {
 			case outs := <-done:
 				for i, o := range outs {
 					calls++
+					if pe, isPanic := o.err.(*lib.PanicError); isPanic {
+						fail("panic", fmt.Sprintf("call %d panicked: %s", i, pe.Value))
+						continue
+					}
 					switch o.step {
 					case "failing":
 						if o.err == nil || !lib.IsNil(o.resp) {
